@@ -187,6 +187,16 @@ class Run:
             self.pending_until = max(self.pending_until, w.now + d['duration'])
         elif kind == 'proc_kill':
             rec['noop'] = not self.kill_some_process(target)
+        elif kind == 'dup':
+            rec['noop'] = not self.duplicate_some_process()
+        elif kind in ('user_restart', 'user_shutdown'):
+            inst = w.instances.get(target)
+            if inst and inst.alive:
+                rec['result'] = w.user_rpc(target, 'supvisors.' + kind.split('_')[1])
+                # every instance is expected to go down (and come back on restart)
+                self.pending_until = max(self.pending_until, w.now + 60.0)
+            else:
+                rec['noop'] = True
         self.disturbances.append(rec)
         w.emit('disturbance', d={k: v for k, v in rec.items() if k != 'pre'})
 
@@ -217,6 +227,27 @@ class Run:
         inst, pid = self.rng.choice(candidates)
         inst._schedule_death(pid, w.now, 9)
         return True
+
+    def duplicate_some_process(self):
+        """ Start, directly through Supervisor, a second copy of a process already running elsewhere. """
+        w = self.world
+        from supervisor.states import RUNNING_STATES
+        model = self.scenario['model']
+        running = []
+        for inst in w.live():
+            for namespec, state in inst.running_truth().items():
+                if state in RUNNING_STATES and model[namespec.split(':')[0]]['managed']:
+                    running.append((inst.nick, namespec))
+        self.rng.shuffle(running)
+        for nick, namespec in running:
+            others = [i for i in w.live() if i.nick != nick and i.sd.options.mood >= 1
+                      and i.running_truth().get(namespec) is not None
+                      and i.running_truth()[namespec] not in RUNNING_STATES]
+            if others:
+                other = self.rng.choice(others)
+                res = w.user_rpc(other.nick, 'supervisor.startProcess', namespec, False)
+                return res[0] == 'ok'
+        return False
 
     # -- main ---------------------------------------------------------------------------------------
     def execute(self):
